@@ -53,8 +53,9 @@ func main() {
 	case "neutral-sites":
 		fs := flag.NewFlagSet("neutral-sites", flag.ExitOnError)
 		repo := fs.String("repo", "/repo", "repository copy to list rewrites for")
+		mut := fs.Bool("mutants", false, "list typed mutants (argument / literal-field exchange, sibling constant) instead of neutral rewrites")
 		_ = fs.Parse(os.Args[2:])
-		neutralSites(*repo)
+		neutralSites(*repo, *mut)
 	case "multi":
 		// development aid: several properties over one load of the repository; prints "<ID> rc=<exit code>" per property
 		fs := flag.NewFlagSet("multi", flag.ExitOnError)
